@@ -390,6 +390,8 @@ bool ReadAll(int fd, void* buf, size_t n) {
 // rel worker only (no sanitizer): print the stack of a fatal signal so that the parent can group crashes by site and
 // needs the (slow) ASan re-run only once per site
 void CrashHandler(int sig) {
+  signal(SIGALRM, SIG_DFL);
+  alarm(1);    // if the stack walk blocks (heap lock held by the crashed code), the process still ends
   static const char msg[] = "VF-CRASH fatal signal in the rel worker, stack:\n";
   ssize_t w = write(2, msg, sizeof msg - 1);
   (void)w;
@@ -406,6 +408,7 @@ int Worker(int rfd, int wfd) {
   FILE* out = fdopen(wfd, "w");
   if (!out) return 3;
 #ifdef VF_PLAIN_MAIN
+  { void* warm[4]; backtrace(warm, 4); }   // loads the unwinder now: no allocation later inside the signal handler
   for (int sg : {SIGSEGV, SIGABRT, SIGBUS, SIGFPE, SIGILL}) signal(sg, CrashHandler);
 #endif
   fprintf(out, "READY\n");
